@@ -18,6 +18,10 @@
                                            with the smallest number run one job } until nothing is left to do
      end                                   end of the program (state is reset)
 
+   A program WITHOUT a pipeline (no `src` line) may hand free jobs to the executors (Model/FreeJob.lean, C05):
+     submit <ex> <id>                      yaclib::Submit(<ex>, f_<id>)  (exe/submit.hpp; f_<id> logs itself like a callback)
+     call e<k> | drain e<k> | flush | expect     as above (st=idle, lc = lf = UniqueJobs alive)
+
      <source> ::= ready <r> | contract p<j> <ful> | contract_on <ex> p<j> <ful> | run <step> | async_contract <ex> p<j> <ful>
                 | task_ready <r> | schedule <step> | lazy_contract <ex> p<j> <ful> | shared_ready <r> | shared_contract p<j> <ful>
                 | shared_handle s<j>                      (a COPY of the kept SharedFuture s<j>)
@@ -29,6 +33,7 @@
      the previous line> lc=<live cores> lf=<live functors>          or  `crash`
    pipe-spec prints, for `expect` lines, `spec r=<r> inv=<ids> sub=<k>,…` of the program built so far, `-` otherwise. -/
 import YaclibModel.Model.Pipeline
+import YaclibModel.Model.FreeJob
 
 namespace Yaclib.Driver.Pipe
 open Yaclib.Pipeline
@@ -137,6 +142,8 @@ structure D where
   st : State := {}
   evs : List Event := []      -- client events of the current program (for the spec)
   lastAlloc : Nat := 0
+  begun : Bool := false       -- a `src` line was seen: the program is a pipeline
+  free : Option FreeJob.FState := none   -- a `submit` line was seen: the program is a sequence of free jobs
 
 def D.cfgFn (d : D) : Cfg := fun k =>
   match d.cfg.find? (·.1 == k) with
@@ -153,6 +160,35 @@ def commas (l : List String) : String := ",".intercalate l
 def showCtx : Option Nat → String
   | none => "-"
   | some k => s!"e{k}"
+
+def showLog (g : G) : String :=
+  s!"inv={commas (g.invoked.map toString)} ran={commas (g.ran.map fun x => s!"{x.id}@{showCtx x.ctx}")} " ++
+  s!"jobs={commas (g.jobs.map fun (j, c) => s!"{j}{if c then "c" else "d"}")} sub={commas (g.subs.map toString)} "
+
+def showFree (d : D) (f : FreeJob.FState) : String :=
+  showLog f.g ++ s!"st=idle al={f.news - d.lastAlloc} lc={f.news - f.deletes} lf={f.news - f.deletes}"
+
+def fapply (d : D) (f : FreeJob.FState) (ev : FreeJob.FEvent) : D :=
+  { d with free := some (FreeJob.fmech d.cfgFn f ev) }
+
+/-- every job queued on executor k -/
+def fdrain (d : D) (k : Nat) : Nat → D
+  | 0 => d
+  | fuel + 1 =>
+    match d.free with
+    | some f => if f.queue.any (·.k == k) then fdrain (fapply d f (.call k)) k fuel else d
+    | none => d
+
+/-- repeat { the user executor with the smallest number that has a job runs one (a ManualExecutor: all of them) } -/
+def fflush (d : D) : Nat → D
+  | 0 => d
+  | fuel + 1 =>
+    match d.free with
+    | some f =>
+      (match (f.queue.map (·.k)).min? with
+       | some k => fflush (fapply d f (.call k)) fuel
+       | none => d)
+    | none => d
 
 def showState (d : D) : String :=
   let st := d.st
@@ -255,9 +291,14 @@ def stepLine (d : D) (ts : List String) : D × Option String :=
         | some i => ({ d with tab := (pid, { i with steps := i.steps ++ [s] }) :: d.tab }, some "ok")
         | none => (d, some "bad"))
      | _, _ => (d, some "bad"))
+  | ["submit", e, id] =>
+    (match parseExec e, id.toNat? with
+     | some e, some id => if d.begun then (d, some "bad") else (fapply d (d.free.getD {}) (.submit e id), none)
+     | _, _ => (d, some "bad"))
   | "src" :: rest =>
+    if d.free.isSome then (d, some "bad") else
     (match parseSrc d.kept d.tab rest with
-     | some (s, lazy, head) => (apply d (.src s lazy head), none)
+     | some (s, lazy, head) => (apply { d with begun := true } (.src s lazy head), none)
      | none => (d, some "bad"))
   | "then" :: rest =>
     (match parseStep d.tab rest with
@@ -269,17 +310,20 @@ def stepLine (d : D) (ts : List String) : D × Option String :=
      | none => (d, some "bad"))
   | ["call", e] =>
     (match parseE e with
-     | some k => (if d.manual.contains k then drain d k 100000 else apply d (.call k), none)
+     | some k =>
+       (match d.free with
+        | some f => (if d.manual.contains k then fdrain d k 100000 else fapply d f (.call k), none)
+        | none => (if d.manual.contains k then drain d k 100000 else apply d (.call k), none))
      | none => (d, some "bad"))
   | ["drain", e] =>
     (match parseE e with
-     | some k => (drain d k 100000, none)
+     | some k => (if d.free.isSome then fdrain d k 100000 else drain d k 100000, none)
      | none => (d, some "bad"))
   | ["start", k] =>
     (match parseStart k with
      | some k => (apply d (.start k), none)
      | none => (d, some "bad"))
-  | ["flush"] => (flush d 100000, none)
+  | ["flush"] => (if d.free.isSome then fflush d 100000 else flush d 100000, none)
   | ["droptask"] => (apply d (.start .cancel), none)
   | ["dropfuture"] => (apply d .dropFuture, none)
   | ["get"] => (apply d .get, none)
@@ -300,8 +344,10 @@ partial def loop (h : IO.FS.Stream) (specMode : Bool) (d : D) : IO Unit := do
       let obs := match ts with
         | ["obs", h] => ((parseS h).bind (showObs d')).getD ""
         | _ => ""
-      IO.println (showState d' ++ (if d'.st.crashed then "" else obs))
-  loop h specMode { d' with lastAlloc := d'.st.g.cAlloc }
+      IO.println (match d'.free with
+        | some f => showFree d' f
+        | none => showState d' ++ (if d'.st.crashed then "" else obs))
+  loop h specMode { d' with lastAlloc := match d'.free with | some f => f.news | none => d'.st.g.cAlloc }
 
 def main (specMode : Bool) : IO Unit := do
   loop (← IO.getStdin) specMode {}
